@@ -362,7 +362,11 @@ func (s *Sim) StepOnce() bool {
 func (s *Sim) AdvanceTime(d time.Duration) {
 	s.settle()
 	s.Log.Addf("sched", "time", "+%s", d)
+	// the fake clock only moves when every goroutine of the bubble is durably blocked: the stall monitor
+	// watches this sleep like a quiescence wait (a goroutine stuck on a library mutex would hang it forever)
+	waitingSince.Store(monitorTicks.Load() + 1)
 	time.Sleep(d)
+	waitingSince.Store(0)
 	s.settle()
 }
 
